@@ -316,10 +316,16 @@ func lifeBody(self py.Object) (py.Object, error) {
 	return py.None, nil
 }
 
+const injectedPanic = "verif: injected panic in a native callable"
+
 var lifeModImpl = &py.ModuleImpl{
 	Info: py.ModuleInfo{Name: "lifemod", Doc: "C09 harness module"},
 	Methods: []*py.Method{
 		py.MustNewMethod("body", lifeBody, 0, "logs and yields"),
+		py.MustNewMethod("boom", func(self py.Object) (py.Object, error) {
+			lifeBody(self)
+			panic(injectedPanic)
+		}, 0, "logs, yields, then panics (fault injection: a Go callable of the embedder that panics)"),
 	},
 	OnContextClosed: func(m *py.Module) {
 		atomic.AddInt64(&lifeCallbacks, 1)
@@ -348,6 +354,7 @@ func classify(err error) string {
 
 type lifeEnv struct {
 	ctx     py.Context
+	boom    py.Object
 	body    py.Object
 	log     *lifeLog
 	modSeq  int32
@@ -360,7 +367,7 @@ func newLifeEnv(log *lifeLog) *lifeEnv {
 	if err != nil {
 		panic(err)
 	}
-	return &lifeEnv{ctx: ctx, body: m.Globals["body"], log: log, srcFile: "lifesrc.py"}
+	return &lifeEnv{ctx: ctx, body: m.Globals["body"], boom: m.Globals["boom"], log: log, srcFile: "lifesrc.py"}
 }
 
 // perform one operation on goroutine g; records call/ret events at the client boundary
@@ -370,6 +377,10 @@ func (e *lifeEnv) perform(g int, seq int, op string, dw *int32) {
 	func() {
 		defer func() {
 			if r := recover(); r != nil {
+				if fmt.Sprint(r) == injectedPanic && op == "runpanic" {
+					res = "injected-panic"
+					return
+				}
 				res = "panic:" + fmt.Sprint(r)
 				e.log.add(lifeEvent{G: g, Kind: "panic", Op: op, Res: fmt.Sprint(r) + " @ " + trimStack(string(debug.Stack())), Seq: seq})
 			}
@@ -377,6 +388,10 @@ func (e *lifeEnv) perform(g int, seq int, op string, dw *int32) {
 		switch op {
 		case "run":
 			globals := py.StringDict{"body": e.body}
+			_, err := e.ctx.RunCode(lifeCodeBody, globals, globals, nil)
+			res = classify(err)
+		case "runpanic":
+			globals := py.StringDict{"body": e.boom}
 			_, err := e.ctx.RunCode(lifeCodeBody, globals, globals, nil)
 			res = classify(err)
 		case "modinit":
@@ -420,7 +435,9 @@ func (e *lifeEnv) perform(g int, seq int, op string, dw *int32) {
 // ---------------------------------------------------------------------------------------------
 // trace specification
 
-func isExecOp(op string) bool { return op == "run" || op == "modinit" || op == "resolve" }
+func isExecOp(op string) bool {
+	return op == "run" || op == "modinit" || op == "resolve" || op == "runpanic"
+}
 func isCloseOp(op string) bool {
 	return op == "close" || op == "closedone"
 }
@@ -577,6 +594,9 @@ func checkLatch(ev []lifeEvent) (string, int) {
 		} else if e.Kind == "ret" {
 			if i, ok := idx[k]; ok {
 				res := e.Res
+				if res == "injected-panic" {
+					res = "ok" // it was admitted: the body ran
+				}
 				if res != "ok" && res != "closed" {
 					// panicked / unexpected: keep it open to the end (may have taken effect)
 					continue
